@@ -630,7 +630,11 @@ def rle_to_sparse(rle_data):
         pass
     if len(indices) == 0:
         assert len(values) == 0
-        return indices, values
+        # empty arrays, so callers can index and reshape the result
+        return (
+            np.array([], dtype=np.int64),
+            np.array([], dtype=getattr(rle_data, "dtype", np.int64)),
+        )
 
     indices = np.concatenate(indices)
     values = np.concatenate(values, dtype=rle_data.dtype)
